@@ -84,6 +84,8 @@ func (d *c20Dialer) Dial(addr string, timeout time.Duration) (net.Conn, error) {
 	return &c20Conn{Conn: conn, n: d.n}, nil
 }
 
+const c20ServerDelay = 700 * time.Millisecond
+
 func c20Tag(sql string) int64 {
 	v, _ := strconv.ParseInt(strings.TrimPrefix(sql, "tag:"), 10, 64)
 	return v
@@ -103,8 +105,16 @@ func TestVerifC20Client(t *testing.T) {
 
 	tn := mustNewMockTransport()
 	var exMu sync.Mutex
-	var executed []int64 // leader side: every command the database was asked to run, in order
-	note := func(tag int64) { exMu.Lock(); executed = append(executed, tag); exMu.Unlock() }
+	var executed []int64  // leader side: every command the database was asked to run, in order
+	var slowTags sync.Map // tags the leader answers only after c20ServerDelay (concurrent part)
+	note := func(tag int64) {
+		exMu.Lock()
+		executed = append(executed, tag)
+		exMu.Unlock()
+		if _, ok := slowTags.Load(tag); ok {
+			time.Sleep(c20ServerDelay)
+		}
+	}
 	db := &mockDatabase{
 		executeFn: func(er *command.ExecuteRequest) ([]*command.ExecuteQueryResponse, uint64, error) {
 			tag := c20Tag(er.Request.Statements[0].Sql)
@@ -297,4 +307,98 @@ func TestVerifC20Client(t *testing.T) {
 		<-hwmC
 	}
 	rep.vfCompare("clientpool", ops, impl, nil)
+
+	// ---- concurrency: several goroutines forward through ONE client (one shared pool); one of them
+	// times out (the leader answers it late) while the others keep sending, also after the late answer
+	// has been written. Model: C20.concurrent_answers_belong_and_execute_once (any interleaving).
+	rounds := vfScale(3, 40)
+	for round := 0; round < rounds; round++ {
+		cl := NewClient(&c20Dialer{inner: tn, n: &c20Net{}}, 5*time.Second)
+		exMu.Lock()
+		executed = nil
+		exMu.Unlock()
+		type outcome struct {
+			kind string
+			tag  int64
+			got  int64
+			err  error
+		}
+		var omu sync.Mutex
+		var outs []outcome
+		var wg sync.WaitGroup
+		do := func(kind string, tg int64) {
+			got := int64(-1)
+			var err error
+			ctx := context.Background()
+			switch kind {
+			case "execute":
+				var res []*command.ExecuteQueryResponse
+				res, _, err = cl.Execute(ctx, &command.ExecuteRequest{Request: req(tg)}, s.Addr(), nil, timeout, 0)
+				if err == nil && len(res) == 1 && res[0].GetE() != nil {
+					got = res[0].GetE().LastInsertId
+				}
+			case "query":
+				var res []*command.QueryRows
+				res, _, err = cl.Query(ctx, &command.QueryRequest{Request: req(tg)}, s.Addr(), nil, timeout, 0)
+				if err == nil && len(res) == 1 && len(res[0].Columns) == 1 {
+					got, _ = strconv.ParseInt(res[0].Columns[0], 10, 64)
+				}
+			default:
+				var res []*command.ExecuteQueryResponse
+				res, _, _, err = cl.Request(ctx, &command.ExecuteQueryRequest{Request: req(tg)}, s.Addr(), nil, timeout, 0)
+				if err == nil && len(res) == 1 && res[0].GetE() != nil {
+					got = res[0].GetE().LastInsertId
+				}
+			}
+			omu.Lock()
+			outs = append(outs, outcome{kind, tg, got, err})
+			omu.Unlock()
+		}
+		slowKind := []string{"execute", "query", "request"}[round%3]
+		slowTag := next()
+		slowTags.Store(slowTag, true)
+		wg.Add(1)
+		go func() { defer wg.Done(); do(slowKind, slowTag) }()
+		nWorkers := 3
+		for w := 0; w < nWorkers; w++ {
+			var tags []int64
+			for i := 0; i < 8; i++ {
+				tags = append(tags, next())
+			}
+			wg.Add(1)
+			go func(w int, tags []int64) {
+				defer wg.Done()
+				for i, tg := range tags {
+					do([]string{"execute", "query", "request"}[(w+i)%3], tg)
+					time.Sleep(time.Duration(90+20*w) * time.Millisecond) // spread over ~1 s: before, during and after the late answer
+				}
+			}(w, tags)
+		}
+		wg.Wait()
+		time.Sleep(c20ServerDelay) // let the leader finish the slow request
+		exMu.Lock()
+		count := map[int64]int{}
+		for _, e := range executed {
+			count[e]++
+		}
+		exMu.Unlock()
+		rep.Case(fmt.Sprintf("concurrent round %d: slow %s + %d workers x 8 requests", round, slowKind, nWorkers), true)
+		for _, o := range outs {
+			rep.Count("concurrent:" + o.kind)
+			if o.err == nil && o.got != o.tag {
+				rep.Fail("client-concurrent:"+o.kind+":answer-belongs-to-another-request",
+					fmt.Sprintf("round %d: %d goroutines share one cluster.Client while request %d (%s) times out: request tag %d (%s) was answered with tag %d", round, nWorkers+1, slowTag, slowKind, o.tag, o.kind, o.got),
+					map[string]interface{}{"round": round, "slow_tag": slowTag, "tag_sent": o.tag, "tag_in_answer": o.got})
+			}
+			if o.tag == slowTag && o.err == nil {
+				rep.Note("round %d: the slow request %d was answered in time (machine too slow for the timing?)", round, slowTag)
+			}
+			if count[o.tag] != 1 {
+				rep.Fail("client-concurrent:"+o.kind+":not-executed-exactly-once-on-the-leader",
+					fmt.Sprintf("round %d: request tag %d (%s, error %v) was executed %d times on the leader", round, o.tag, o.kind, o.err, count[o.tag]),
+					map[string]interface{}{"round": round, "tag": o.tag, "executions": count[o.tag], "error": fmt.Sprint(o.err)})
+			}
+		}
+		rep.TracesValidated++
+	}
 }
